@@ -341,6 +341,69 @@ func c08Run(w *W) {
 			return
 		}
 	}
+	if slow || burst || w.Failed() || w.Choose(simrt.SProg, 2) != 0 {
+		return
+	}
+	// an application that answers on the Message object it has just received
+	// (it owns it): what it sends is a message of its own - every member that
+	// hears it gets it once, the member the old content came from included,
+	// and it does not come back
+	var a, b *c8Member
+	for _, m := range members {
+		for _, o := range members {
+			if a == nil && o != m && m.expect[o.name] && o.sender && m.sender {
+				a, b = m, o
+			}
+		}
+	}
+	if a == nil {
+		return
+	}
+	if k := w.Choose(simrt.SProg, len(members)); members[k].sender {
+		for _, o := range members {
+			if o != members[k] && members[k].expect[o.name] && o.sender {
+				a, b = members[k], o
+			}
+		}
+	}
+	a.r.keep = func(body string) bool { return strings.HasPrefix(body, "ping:") }
+	w.Op("%s sends a ping; %s answers on the very Message it received", b.name, a.name)
+	if err := b.s.Send([]byte("ping:" + b.name)); err != nil {
+		w.Failf("C08/send-failed", "%s: %v", b.name, err)
+		return
+	}
+	w.Sleep(500 * time.Millisecond)
+	w.Settle()
+	if len(a.r.kept) == 0 {
+		w.Failf("C08/missing:"+topo, "%s never received the ping of %s", a.name, b.name)
+		return
+	}
+	rm := a.r.kept[0]
+	a.r.kept = nil
+	rm.Body = append(rm.Body[:0], "reuse:"+a.name...)
+	if err := a.s.SendMsg(rm); err != nil {
+		w.Failf("C08/send-failed", "%s re-using a received message: %v", a.name, err)
+		return
+	}
+	w.Sleep(time.Second)
+	w.Settle()
+	for _, m := range members {
+		cnt := 0
+		for _, g := range m.r.got {
+			if g == "reuse:"+a.name {
+				cnt++
+			}
+		}
+		switch {
+		case m == a && cnt > 0:
+			w.Failf("C08/echo:"+topo, "%s received its own message %q back", a.name, "reuse:"+a.name)
+			return
+		case m != a && m.expect[a.name] && cnt != 1:
+			w.Failf("C08/reused-message:"+topo, "%s sent a message using the Message object in which it had received %s's ping: %s received it %d times instead of once", a.name, b.name, m.name, cnt)
+			return
+		}
+	}
+	w.Probe("answer-on-received-message-object")
 }
 
 func init() {
